@@ -100,6 +100,30 @@ CLAIMS = {
              'obligation or the correspondence. ' + TIE,
         note=BASE_NOTE + 'partially covered fields are unconstrained (as in the property); Spec/Layout.v gives offsets/widths.',
         design='DESIGN.md section 7, C11'),
+    'C16': dict(
+        technique='Coq proof over a Gallina model of TagBlock.create / TagBlock.init / _pre_process (create-parse round trip, '
+                  'checksum iff, extras ignored, sentence unchanged) for all field combinations and values + differential '
+                  'check against TagBlock / NMEASentenceFactory.produce',
+        text='C16a (create then init gives back the textual form of every supported field value with a matching checksum, for '
+             'any non-empty set of supported fields with separator-free values; group triples), C16a_hex (one- and two-digit '
+             'hex checksums parse back), C16b (valid iff the two hex digits equal the XOR of the content), C16c (unknown or '
+             'malformed fields anywhere leave every known accessor unchanged), C16d_pre_process / C16d (the sentence after a '
+             'tag block is parsed exactly as without it, only tag_block differs) are proved in Coq, unbounded in the number and '
+             'length of fields, for every oracle of int() on non-ASCII digit text. Out of scope as the property is read: '
+             'TagBlock.create() with no field, checksum fields that are not two hex digits. ' + TIE,
+        note=BASE_NOTE + 'Prim/PyText.v models str/bytes split, strip, int(str[, 16]) on ASCII by hand; int() of non-ASCII '
+             'digit strings is a Section variable (every theorem holds for all such oracles); str values are their UTF-8 bytes.',
+        design='DESIGN.md section 7, C16'),
+    'C17': dict(
+        technique='Coq proof (group independence + single-group invariant, induction over the arrival sequence) that the tag '
+                  'block queue run equals an independent grouping specification for all well-formed interleavings + '
+                  'differential check fed directly and through IterMessages / NMEAQueue with tbq=',
+        text='C17 (forall ss, every tag block parses -> tbqs_wf ss -> tbq_run ss = tbqs_groups ss, per arrival), '
+             'C17_passthrough, C17_group_independence, C17_single_group_correct, C17_unmixed, C17_complete are proved in Coq '
+             'for any number of groups, any sizes and any interleaving, including group-id reuse after completion. ' + TIE,
+        note=BASE_NOTE + 'queue.Queue is a FIFO list; well-formedness (duplicate-free, first sentence of a group before its '
+             'others) is the proviso of the property itself.',
+        design='DESIGN.md section 7, C17'),
 }
 
 PENDING = 'check not yet built in this snapshot (work in progress; see DESIGN.md section 12 for the status)'
